@@ -458,3 +458,33 @@ PROPS["C03"] = dict(
     unproved=["sender: 'a timer is always running while nothing is queued' as an all-history invariant (checked by the drain oracle never_stuck on the real SendTransaction)",
               "the numeric bound as a theorem (termination measure over NAK queue, counters and phases); checked by the drain oracle bounded"],
 )
+
+PROPS["C15"] = dict(
+    title="With the CRC option on, corrupted PDUs are rejected",
+    module="Cfdp.Props.C15",
+    namespace="Cfdp.Crc",
+    theorems=["C15_criterion", "C15_unaltered_accepted", "C15_burst", "C15_single_bit", "C15_odd_weight", "C15_double_bit",
+              "crc16_bits", "C15_detects"],
+    engines=["codec"],
+    design="§6 C15",
+    technique="Lean 4 proof: the model's CRC-16 as a linear map over GF(2) on BitVec 16 (linearity, injectivity of the shift step, parity of the generator, order of x), bridged to the octet-level model + differential correspondence",
+    level_text=("Kernel-checked for frames of any length: the register computation of the model's crc16 (CRC-16/IBM-3740, what PDU::encode appends and PDU::decode checks) "
+                "is bit-serial feeding of the message into a 16-bit register (crc16_bits), which is linear over GF(2); hence an error pattern e laid over any valid frame "
+                "leaves the check register at exactly what e alone gives from a zero register, and the corrupted frame passes the check iff the residue of e modulo the "
+                "generator is zero, while the unaltered frame always passes (C15_criterion, C15_unaltered_accepted). That residue is never zero for: any error confined "
+                "to 16 consecutive bit positions, in particular any single flipped bit (C15_burst, C15_single_bit: the shift step is injective, no reduction happens "
+                "within 16 bits); any odd number of flipped bits (C15_odd_weight: the generator is divisible by x+1, so the shift step preserves parity); any two flipped "
+                "bits less than 32767 positions apart, i.e. anywhere in a frame of up to 4095 octets (C15_double_bit: x has order 32767, established by walking the whole "
+                "orbit in the kernel). C15_detects puts it together at the octet level: however the corrupted frame is read as message + 16 CRC bits, the CRC does not "
+                "match. The finite facts used (agreement of the BitVec step with the model's crcBit, injectivity, parity, the orbit of x) are exhaustive kernel "
+                "evaluations (decide +kernel over all 65536 words / 32766 steps), not samples. Tie to the code: codec engine - CRC-on PDUs of every type are encoded and "
+                "decoded by the real code and the model, and the engine applies single-bit, double-bit, odd-weight and burst patterns to real encodings (oracle detects)."),
+    level_note=("Trusted: Lean kernel (the decide +kernel steps are evaluated by the kernel itself, no native code, no extra axioms); lean/Cfdp/Model/Codec/Pdu.lean (crc16, "
+                "Pdu.encode / Pdu.decode) is tied to cfdp-core/src/pdu.rs by the codec engine. 'Rejected, or decodes to the original if only spare bits changed': the theorem "
+                "shows the CRC check itself fails for these patterns, so decode returns CRCFailure before looking at the payload (the check comes first since finding F09); "
+                "errors in the first 4 octets can change the length field and thereby which octets are read as CRC - the property excludes them and so does the engine."),
+    rule=("codec engine: corpus of every PDU type x both file-size flags with the CRC on; every single-bit flip, every pair of flips within a window, odd-weight patterns and "
+          "every burst of length <= 16 at every position after the 4 fixed header octets (quick: encodings up to 120 octets, thorough: up to 400). Oracle detects."),
+    assumptions=["the error pattern leaves the first 4 octets (version/flags and data-field length) intact, as the property states"],
+    unproved=[],
+)
